@@ -21,6 +21,7 @@
 #include <rime/dict/table.h>
 #include <rime/dict/user_dictionary.h>
 #include <rime/dict/vocabulary.h>
+#include <rime/verif_hooks.h>
 
 namespace rime {
 
@@ -155,6 +156,9 @@ UserDictionary::UserDictionary(const string& name, an<Db> db)
     : name_(name), db_(db) {}
 
 UserDictionary::~UserDictionary() {
+#ifdef RIME_VERIF_HOOKS
+  verif::Event verif_ev("destroy\t" + verif::ptr(this) + "\t" + name_);
+#endif
   if (loaded()) {
     CommitPendingTransaction();
   }
@@ -166,6 +170,9 @@ void UserDictionary::Attach(const an<Table>& table, const an<Prism>& prism) {
 }
 
 bool UserDictionary::Load() {
+#ifdef RIME_VERIF_HOOKS
+  verif::Event verif_ev("load\t" + verif::ptr(this) + "\t" + name_);
+#endif
   if (!db_ || db_->disabled())
     return false;
   if (!db_->loaded() && !db_->Open()) {
@@ -461,6 +468,10 @@ bool UserDictionary::Initialize() {
 }
 
 bool UserDictionary::FetchTickCount() {
+#ifdef RIME_VERIF_HOOKS
+  if (verif::depth() == 0)
+    verif::event("fetchtick\t" + verif::ptr(this) + "\t" + name_);
+#endif
   string value;
   try {
     // an earlier version mistakenly wrote tick count into an empty key
